@@ -339,7 +339,11 @@ class World:
         return bool(self.tr and self.tr.feed_eof())
 
     def reset(self) -> bool:
-        return bool(self.tr and self.tr.feed_error(ConnectionResetError(104, "reset by peer")))
+        # what recv() fails with varies: a reset, a keep-alive time-out of the kernel (the builtin TimeoutError, which
+        # asyncio.TimeoutError aliases), an unreachable host, a broken pipe - the library treats them alike
+        exc = self.rng.choice([ConnectionResetError(104, "reset by peer"), TimeoutError(110, "Connection timed out"),
+                               OSError(113, "No route to host"), BrokenPipeError(32, "Broken pipe"), ConnectionAbortedError(103, "aborted")])
+        return bool(self.tr and self.tr.feed_error(exc))
 
     def set_write_failure(self, exc: BaseException | None) -> None:
         self.fail_writes = exc
